@@ -6,7 +6,7 @@ Returns {normalised path: 'must' | 'may'}.
 """
 from . import ref_aut, pat
 
-FS_CHARS = 'abAhlrz.c'
+FS_CHARS = 'abAhlrz.cdexsp \\*[]!(){},|~-'
 FS_ALPHA = sorted(set(ord(c) for c in FS_CHARS) | {0x01})
 MODE_CS = ref_aut.Mode(ic=False, path=True)
 MODE_IC = ref_aut.Mode(ic=True, path=True)
